@@ -199,6 +199,10 @@ pub fn find_borrow__typed(w: &SpecWorld, k: EntityAny) -> Option<u32> {
     ecs_find_borrow!(w, k, |b: &CompBox, c: &mut CompAl, e: &Entity<ArchThree>, d: &EntityDirect<ArchThree>| -> u32 { c.0[0] = 1; *b.0 })
 }
 
+pub fn find_borrow__oneof(w: &SpecWorld, k: EntityAny) -> Option<u32> {
+    ecs_find_borrow!(w, k, |x: &OneOf<CompZ, CompAl, K3>, a: &mut CompA| -> u32 { a.0 += 1; a.0 })
+}
+
 // ------------------------------------------------------------------------------------
 // query macros: iter (mut), iter_borrow, iter_destroy
 // ------------------------------------------------------------------------------------
@@ -245,6 +249,16 @@ pub fn iter_borrow__typed(w: &SpecWorld) -> u32 {
 pub fn iter_borrow__break(w: &SpecWorld) -> u32 {
     let mut s = 0;
     ecs_iter_borrow!(w, |a: &CompA| { s += a.0; if s > 10 { EcsStep::Break } else { EcsStep::Continue } });
+    s
+}
+pub fn iter_borrow__oneof(w: &SpecWorld) -> u32 {
+    let mut s = 0;
+    ecs_iter_borrow!(w, |x: &OneOf<CompZ, CompAl, K3>, a: &CompA| { s += a.0; });
+    s
+}
+pub fn iter_borrow__oneof_mut(w: &SpecWorld) -> u32 {
+    let mut s = 0;
+    ecs_iter_borrow!(w, |x: &mut OneOf<CompD, CompAl>, b: &CompBox| { s += *b.0; });
     s
 }
 pub fn iter_destroy__all(w: &mut SpecWorld) -> u32 {
